@@ -382,6 +382,8 @@ pub enum Op {
 	Rebuild,
 	/// rebuild through serde
 	Serde,
+	/// continue with a window of another capacity (given) that was overwritten by `clone_from`
+	CloneFrom(u8),
 }
 
 #[derive(Serialize, Deserialize, Clone, Debug)]
@@ -432,6 +434,18 @@ pub fn run_history<T: Label>(c: &HCase, st: &mut Stats) -> CaseResult {
 					let buf: Box<[T]> = w.as_slice().to_vec().into_boxed_slice();
 					w = Window::from_parts(buf, idx as PeriodType);
 				}
+			}
+			Op::CloneFrom(other) => {
+				// Clone::clone_from into a window of another capacity (also empty) that has its own history
+				let oc = (*other as usize) % 12;
+				let mut dst: Window<T> = if oc == 0 { Window::empty() } else { Window::new(oc as PeriodType, T::mk(900_000)) };
+				for j in 0..(*other as usize / 12) % 5 {
+					if oc > 0 {
+						dst.push(T::mk(900_001 + j as u32));
+					}
+				}
+				dst.clone_from(&w);
+				w = dst;
 			}
 			Op::Serde => {
 				if n > 0 {
@@ -518,6 +532,17 @@ pub fn trace_history<T: Label>(c: &HCase) -> (u64, u64) {
 				let c2 = w.clone();
 				kept.push(std::mem::replace(&mut w, c2));
 			}
+			Op::CloneFrom(other) => {
+				let oc = (*other as usize) % 12;
+				let mut dst: Window<T> = if oc == 0 { Window::empty() } else { Window::new(oc as PeriodType, T::mk(900_000)) };
+				for j in 0..(*other as usize / 12) % 5 {
+					if oc > 0 {
+						dst.push(T::mk(900_001 + j as u32));
+					}
+				}
+				dst.clone_from(&w);
+				w = dst;
+			}
 			Op::Rebuild => {
 				if n > 0 {
 					if let Ok(idx) = exported_index(&w) {
@@ -555,6 +580,7 @@ fn history_strategy() -> impl Strategy<Value = HCase> {
 		3 => Just(Op::Observe),
 		3 => any::<u16>().prop_map(Op::Splits),
 		1 => Just(Op::CloneSwap),
+		1 => any::<u8>().prop_map(Op::CloneFrom),
 		1 => Just(Op::Rebuild),
 		1 => Just(Op::Serde),
 	];
